@@ -397,6 +397,12 @@ class X:
             return VOpaque(self.fresh(PyObj, hint), v.tag)
         if isinstance(v, (VExc, VClass, VPy, VFunc)):
             return v
+        if isinstance(v, VObj):
+            o = VObj(v.cls, None, v.pyclass)
+            o.fields = {k: self.fresh_like(f, f'{hint}_{k}') for k, f in v.fields.items()}
+            return o
+        if hasattr(v, 'havoc'):
+            return v.havoc(self, hint)
         raise Unsupported(f'cannot havoc a value of type {type(v).__name__} ({hint})')
 
     # ---- logical interface used by contracts
@@ -738,8 +744,10 @@ class X:
         inv = c.loop_inv.get(k)
         if inv is None:
             raise Unsupported(f'loop #{k} of {self.src.qualname} (line {node.lineno}) has no invariant in the contract')
+        c.before_loop(self, k)
         for name, t in inv(self):
             self.prove(f'loop{k}.inv_init.{name}', t)
+        frozen = set(c.loop_frozen_ghost.get(k, ()))
         # havoc
         for n in sorted(modified_names | mutated):
             if n in self.env:
@@ -751,7 +759,7 @@ class X:
                 ov = c.havoc_override(self, k, f'{on}.{fld}')
                 o.fields[fld] = ov if ov is not None else self.fresh_like(o.fields[fld], f'{on}_{fld}')
         for gname in sorted(self.ghost):
-            if gname in c.ghost_const:
+            if gname in c.ghost_const or gname in frozen:
                 continue
             self.ghost[gname] = self.fresh_like(self.ghost[gname], 'g_' + gname)
         c.after_havoc(self, k)
@@ -765,9 +773,11 @@ class X:
             try:
                 run_body()
             except _Break:
+                c.after_loop(self, k, 'break')
                 return
             except _Continue:
                 pass
+            c.end_of_body(self, k)
             for name, t in inv(self):
                 self.prove(f'loop{k}.inv_preserved.{name}', t)
             if variant:
@@ -775,6 +785,7 @@ class X:
                 self.prove(f'loop{k}.variant_decreases', z3.And(v0 >= 0, v1 < v0))
             raise PathEnd()
         else:
+            c.after_loop(self, k, 'guard')
             self.exec_block(orelse)
 
     def st_While(self, s):
@@ -1142,7 +1153,9 @@ class X:
                 return obj.fields[e.attr]
             key = f'{obj.cls}.{e.attr}'
             if key in self.contract.stubs:
-                return VFunc(self.contract.stubs[key], key)
+                # method contract: the receiver is passed as the first argument
+                stub = self.contract.stubs[key]
+                return VFunc(lambda X, args, kwargs, _o=obj, _s=stub: _s(X, [_o] + list(args), kwargs), key)
             raise Unsupported(f'unknown field {obj.cls}.{e.attr}')
         if isinstance(obj, VPy) and obj.obj is not None:
             try:
@@ -1306,6 +1319,17 @@ class Contract:
 
     def havoc_override(self, X, k, name):
         return None
+
+    loop_frozen_ghost = {}   # loop ordinal -> ghost names that the loop does not change (not havoced at its head)
+
+    def before_loop(self, X, k):
+        """ghost snapshots taken when control reaches loop k (before the invariant is checked on entry)"""
+
+    def end_of_body(self, X, k):
+        """obligations / ghost updates at the end of one iteration of loop k (before the invariant is re-checked)"""
+
+    def after_loop(self, X, k, how):
+        """obligations at the exit of loop k; how = 'break' | 'guard'"""
 
     def after_havoc(self, X, k):
         pass
